@@ -1088,5 +1088,38 @@ def rule_no_wait_cycle(ctx):
 
 
 
+
+def rule_close_does_not_wait_for_the_peer(ctx):
+    """C11.o  close() fails what is pending whether or not the peer still reads.  The functions that run between
+    close() being called and the close sequence - _stop_tasks, and _finally_sender, which runs in the cancelled
+    sender while _stop_tasks waits for it - await nothing but the end of the library's own tasks: no transport write,
+    flush or drain (`on_send_queue_empty` is `writer.drain()` on TCP, which blocks for as long as the peer does not read),
+    no queue join, no sleep.  Otherwise close() hangs before a single pending request has been failed."""
+    rep = ctx.report
+    slots = ctx.slots
+    BLOCKING = ('on_send_queue_empty', 'send_frame', 'drain', 'flush', 'join', 'sleep', 'wait', 'wait_for')
+    n = 0
+    for cls in _socket_classes(ctx):
+        for k in cls.mro():
+            if not k.is_subclass_of(slots.RSocketBase):
+                continue
+            for name in ('_finally_sender', '_stop_tasks'):
+                f = k.methods.get(name)
+                if f is None:
+                    continue
+                n += 1
+                bad = [x for x in walk_local(f.node) if isinstance(x, ast.Await) and isinstance(x.value, ast.Call) and
+                       isinstance(x.value.func, ast.Attribute) and x.value.func.attr in BLOCKING]
+                rep.add('C11.o', '%s.%s / waits for the library\'s own tasks only' % (k.name, name), f, not bad,
+                        'awaits: %s' % (', '.join(sorted({ast.unparse(x.value.func) for x in walk_local(f.node)
+                                                           if isinstance(x, ast.Await) and
+                                                           isinstance(x.value, ast.Call)})) or 'nothing')
+                        if not bad else
+                        'await %s(...) on the way from close() to the close sequence: with a peer that has stopped reading '
+                        'this never returns, and nothing pending is failed' % ast.unparse(bad[0].value.func))
+    rep.require('C11.o', 'sender clean-up hooks and task-stopping functions', n, 3)
+
+
+
 RULES = [('C11.a', rule_a), ('C11.b', rule_b), ('C11.b', rule_b2), ('C11.c', rule_c), ('C11.d', rule_d), ('C11.e', rule_e),
-         ('C11.f', rule_f), ('C11.g', rule_g), ('C11.h', rule_h), ('C11.i', rule_i), ('C11.f', rule_wrap), ('C11.g+C11.e', rule_plumbing), ('C11.j', rule_group_close), ('C11.k', rule_k), ('C11.l', rule_l), ('C11.m', rule_m), ('C11.k', rule_termination_event), ('C11.n', rule_no_wait_cycle)]
+         ('C11.f', rule_f), ('C11.g', rule_g), ('C11.h', rule_h), ('C11.i', rule_i), ('C11.f', rule_wrap), ('C11.g+C11.e', rule_plumbing), ('C11.j', rule_group_close), ('C11.k', rule_k), ('C11.l', rule_l), ('C11.m', rule_m), ('C11.k', rule_termination_event), ('C11.n', rule_no_wait_cycle), ('C11.o', rule_close_does_not_wait_for_the_peer)]
